@@ -284,21 +284,3 @@ func TestOpenRate(t *testing.T) {
 	}
 	fmt.Println("open bucket cases", n, "with open point", amb)
 }
-
-func TestTrivial(t *testing.T) {
-	if os.Getenv("C10_TRIVIAL") == "" {
-		return
-	}
-	n, triv := 0, 0
-	sizes := map[int]int{}
-	for i := sweepDocs(); i < sweepDocs()+3000; i++ {
-		in := fw.Get("C10").Gen(fw.CaseRNG(1, "C10", i), i, "quick").(*In)
-		n++
-		k := len(modelOf(in).Lays)
-		sizes[k]++
-		if k < 3 {
-			triv++
-		}
-	}
-	fmt.Println(n, triv, sizes)
-}
